@@ -260,6 +260,8 @@ pub struct Alphabet {
     pub max_upgrades: usize,
     pub thresholds: Vec<u32>,
     pub max_threshold_changes: usize,
+    /// offer an ingestion opportunity even when nothing can be ingested (a no-op)
+    pub noop_ingest: bool,
 }
 
 impl Alphabet {
@@ -274,6 +276,7 @@ impl Alphabet {
             max_upgrades: 0,
             thresholds: vec![],
             max_threshold_changes: 0,
+            noop_ingest: false,
         }
     }
 
@@ -317,8 +320,16 @@ impl Alphabet {
                 evs.push(Ev::Ingest { budget: *b });
             }
         } else if !last_was_full_ingest && !hist.is_empty() {
-            for b in &self.budgets {
-                evs.push(Ev::Ingest { budget: *b });
+            let would_ingest = ic_btc_canister::with_state(|s| {
+                ic_btc_canister::unstable_blocks::peek(&s.unstable_blocks).is_some()
+            });
+            if would_ingest {
+                for b in &self.budgets {
+                    evs.push(Ev::Ingest { budget: *b });
+                }
+            } else if self.noop_ingest {
+                // nothing can be ingested: the budget is irrelevant
+                evs.push(Ev::Ingest { budget: 0 });
             }
         }
         let ups = hist.iter().filter(|e| matches!(e, Ev::Upgrade { .. })).count();
@@ -394,6 +405,14 @@ pub trait Oracle: Sync {
     ) {
     }
     fn on_state(&self, w: &mut World, mon: &mut Self::Mon, hist: &[Ev], out: &mut Out);
+    /// Digest of the monitor state that influences verdicts (part of the dedup key).
+    fn mon_digest(&self, _mon: &Self::Mon) -> u64 {
+        0
+    }
+    /// Whether states may be merged on equal complete fingerprints.
+    fn dedup(&self) -> bool {
+        true
+    }
     /// Whether a trap in this kind of event is itself a violation of the property.
     fn trap_is_violation(&self) -> bool {
         true
@@ -460,6 +479,36 @@ impl<O: Oracle> Model for ChainModel<O> {
 
     fn check(&self, s: &mut Self::S, hist: &[Ev], out: &mut Out) {
         self.oracle.on_state(&mut s.w, &mut s.mon, hist, out);
+    }
+
+    fn key(&self, s: &Self::S, hist: &[Ev]) -> Option<u128> {
+        if !self.oracle.dedup() {
+            return None;
+        }
+        // complete logical state + budgets used so far + monitor digest + last outcome
+        // (enabledness of Ingest depends on it)
+        let mut b = crate::world::full_fingerprint().to_le_bytes().to_vec();
+        let nblocks = hist.iter().filter(|e| matches!(e, Ev::Block { .. })).count() as u8;
+        let specials = hist
+            .iter()
+            .filter(|e| matches!(e, Ev::Block { body, .. } if *body != BODY_CB))
+            .count() as u8;
+        let ups = hist.iter().filter(|e| matches!(e, Ev::Upgrade { .. })).count() as u8;
+        let tcs = hist.iter().filter(|e| matches!(e, Ev::SetThreshold(_))).count() as u8;
+        let last_ingest_complete = matches!(
+            s.last,
+            Some(Applied::Ingest(Ingested::DoneWork)) | Some(Applied::Ingest(Ingested::Nothing))
+        ) as u8;
+        let last_upgrade = matches!(hist.last(), Some(Ev::Upgrade { .. })) as u8;
+        // the next block's id determines its coinbase salt and value; block#1 determines T
+        let next_id = s.w.ids.len() as u8;
+        b.extend([nblocks, specials, ups, tcs, last_ingest_complete, last_upgrade, next_id]);
+        if s.w.ids.len() > 1 {
+            b.extend(s.w.ids[1]);
+        }
+        b.extend(self.oracle.mon_digest(&s.mon).to_le_bytes());
+        let h = crate::util::sha256(&b);
+        Some(u128::from_le_bytes(h[..16].try_into().unwrap()))
     }
 
     fn sample(&self, s: &mut Self::S, hist: &[Ev]) -> Value {
